@@ -63,10 +63,12 @@ CLAIMED = {
         "Lean 4 theorems over a hand-written model of Transform/CoordinateTransformer/GCodeCore's move path for an ARBITRARY "
         "4x4 current matrix (algebra over Q by grind, induction over op lists) + differential correspondence with scipy's "
         "rotation blocks passed as exact data",
-        "Proof: C04_abs_word, C04_rel_word, C04_mentions, C04_invariant, C04_invariant_run: for every affine map reachable or "
+        "Proof: C04_abs_word, C04_rel_word, C04_mentions, C04_invariant, C04_bypass_word, C04_bypass_machine, "
+        "C04_setaxis_machine, C04_bypass_agree_iff, C04_setaxis_agree_iff, C04_invariant_run: for every affine map reachable or "
         "not, every partial-axis move/rapid in both modes, the emitted words are the image of the target (absolute) or the "
         "linear image of the displacement (relative), every axis that has to change is mentioned, and machine = A.tracked is "
-        "preserved along any op list that leaves A unchanged.",
+        "preserved along any op list that leaves A unchanged - including absolute-bypass moves and axis resets exactly when "
+        "they resync (replacing the requested coordinates commutes with the map at the tracked position).",
         "Trusted: Lean kernel, model tied by correspondence, harness; exact arithmetic over Q: float rounding and LAPACK's inverse "
         "are sampled with the tie-guarded tolerance, not proved; scipy Rotation enters as data.",
         "DESIGN.md section 7 / C04",
@@ -98,9 +100,11 @@ CLAIMED = {
         "files and streams",
         "Proof: C14_no_duplicates, C14_registered, C14_same_bytes, C14_delivery(_from), C14_session, C14_content_invariant, "
         "C14_file_content, C14_utf8_roundtrip, C14_teardown(_run) for every history and every mix of writer kinds; "
-        "correspondence on path files, BytesIO/StringIO, buffered and tty doubles, custom writers, all line endings, non-ASCII text.",
+        "after flush() or teardown() no file kind has anything unflushed (a caller's file object is flushed before it is detached); "
+        "correspondence on path files, caller-opened text/binary real files read back from disk, BytesIO/StringIO, buffered and tty "
+        "doubles, custom writers, all line endings, non-ASCII text.",
         "Trusted: Lean kernel (propext, Classical.choice, Quot.sound), model tied by correspondence, Python harness; OS file "
-        "buffering and non-UTF-8 text streams are outside the model; a user-supplied buffered file object is only flushed by its owner.",
+        "buffering below flush() and non-UTF-8 text streams are outside the model.",
         "DESIGN.md section 7 / C14",
     ),
     "C15": (
@@ -116,15 +120,15 @@ CLAIMED = {
         "DESIGN.md section 7 / C15",
     ),
     "C16": (
-        "Lean 4 invariant proofs over a transition system of caller / print thread / sender thread / reader thread / device (13 "
-        "actions, write() split into its real steps) for every interleaving + differential correspondence against the real "
+        "Lean 4 invariant proofs over a transition system of caller / print thread / sender thread / reader thread / device (14 "
+        "actions, write() split into its real steps; Marlin-style line-number handshake and Grbl-style greeting handshake) for every interleaving + differential correspondence against the real "
         "threaded SerialWriter/SocketWriter with harness-controlled replies and injected delays",
         "Proof: C16_order_once, C16_sync_partial, C16_sync, C16_single_probe_clean, C16_sync_single_probe, "
         "C16_error_surfaces, C16_unsolicited_error_surfaces, C16_error_line_is_due, C16_no_spurious_error, C16_connect_clean, "
-        "C16_disconnect_wait for every action list (sync theorems under the ghost flags backlog = false and surplusHit = false); "
+        "C16_disconnect_wait, C16_grbl_single_probe_clean, C16_sync_grbl_single_probe for every action list (sync theorems under the ghost flags backlog = false and surplusHit = false); "
         "the two residual defects (handshake backlog, surplus flag-setting line read inside a write) are recorded findings "
         "with decide witnesses replayed every run.",
-        "Trusted: as C15. Out of scope: Grbl greeting, Resend lines mid-session, writes after a socket loss (liveness).",
+        "Trusted: as C15. Out of scope: Resend lines mid-session, writes after a socket loss, a connect() that never returns (liveness).",
         "DESIGN.md section 7 / C16",
     ),
     "C18": (
@@ -228,6 +232,19 @@ CLAIMED = {
     ),
 }
 
+# translator ties (harness/core.py GEN_TIES): part of the model is regenerated from the source text on every run
+TIES = {
+    "state": ({"C02", "C03", "C05", "C06", "C07"},
+              " Translator tie: gscrib/gcode_state.py (every GState setter / validator, the enums) is translated by AST into Lean on every "
+              "run (tools/gen_state.py -> Gen/StateSrc.lean) and Props/StateTie.lean (17 theorems, for every state and argument) re-proved: "
+              "the builder model's state transitions - which check comes first, what is assigned and when - are exactly the translated "
+              "methods; the translator itself is validated against the real class through driver mode gstate."),
+    "point": ({"C01", "C03", "C04", "C11"},
+              " Translator tie: Point.resolve/replace/mask/combine/within_bounds of gscrib/geometry/point.py are translated by AST into Lean on "
+              "every run (tools/gen_point.py -> Gen/PointSrc.lean) and Props/PointTie.lean re-proved: the models' point operations equal the "
+              "translated methods; the translator is validated against the real class through driver mode point."),
+}
+
 PENDING_REASON = "machinery for this property is not finished yet (build in progress, see DESIGN.md section 12); not claimed"
 
 
@@ -241,6 +258,9 @@ def main():
     for pid in props:
         if pid in CLAIMED:
             tech, text, note, ref = CLAIMED[pid]
+            for props_, note_ in TIES.values():
+                if pid in props_:
+                    tech += note_
             checks.append({
                 "property_id": pid,
                 "quick_cmd": f"/venv/bin/python run.py check {pid} --tier quick",
@@ -269,8 +289,10 @@ def main():
             "name": "lean4-model+correspondence",
             "path": "lean/ (lake project GscribModel, driver binary) + harness/ + run.py",
             "serves_properties": sorted(CLAIMED),
-            "kind_free_text": "Lean 4.33 theorems over hand-written executable models; every run re-builds, audits axioms, "
-                              "and runs the model driver and the real Python code on the same generated cases",
+            "kind_free_text": "Lean 4.33 theorems over executable models - hand-written, with the state class, the point "
+                              "algebra and the instruction table regenerated from the source text on every run and tied to the "
+                              "hand-written part by re-proved theorems; every run re-builds, audits axioms, and runs the model "
+                              "driver and the real Python code on the same generated cases",
         }],
         "checks": checks,
         "notes": "Exit codes: 0 held, 1 VIOLATION, 2 infrastructure. known_findings.json lists genuine defects (fixed / finding).",
